@@ -72,6 +72,21 @@ pub enum AutocompleteType {
     None,
 }
 
+/// Position in the file of a column on a line, where the column is given in UTF-16
+/// code units (the unit of LSP positions) and not in bytes.
+pub(crate) fn pos_at_utf16_column(codemap: &CodeMap, line_span: Span, col: u32) -> Pos {
+    let mut units = 0u32;
+    let mut bytes = 0u32;
+    for c in codemap.source_span(line_span).chars() {
+        if units >= col {
+            break;
+        }
+        units += c.len_utf16() as u32;
+        bytes += c.len_utf8() as u32;
+    }
+    line_span.begin() + bytes
+}
+
 pub(crate) trait AstModuleInspect {
     /// Walks through the AST to find the type of the expression at the given position.
     /// Based on that, returns an enum that can be used to determine what kind of
@@ -89,7 +104,7 @@ impl AstModuleInspect for AstModule {
             }
             Some(line_span) => line_span,
         };
-        let current_pos = std::cmp::min(line_span.begin() + col, line_span.end());
+        let current_pos = pos_at_utf16_column(self.codemap(), line_span, col);
 
         // Walk through the AST to find a node matching the current position.
         fn walk_and_find_completion_type(
